@@ -44,8 +44,8 @@ ASSUMPTIONS = [
     "depth: structural induction - a node reaches its children only through BaseRef._mk_value; one level with arbitrary children (leaf ref, nested node, literal) plus explicit depth-2 trees",
 ]
 BOUNDS = {
-    "quick": "all operator methods found by introspection x {ref-ref, ref-literal, literal-ref} x 4 domains, depth 1 and depth 2 over 6 inner shapes; 13 in-place operators x {value, expr} x {literal, ref operand}; values unbounded (pool domain: 12 values per operand)",
-    "thorough": "same plus depth-3 spine over a reduced operator set, both builds",
+    "quick": "all operator methods found by introspection x {ref-ref, ref-literal, literal-ref} x 4 domains, depth 1 and depth 2 over 9 inner shapes (either operand; both operands nested for 6 operators), depth-3 spines over 5 operators; 13 in-place operators x {value, expr} x {literal, ref operand}; values unbounded (pool domain: 12 values per operand)",
+    "thorough": "same with depth-3 spines over 7 operators, both builds",
 }
 OUTSIDE = "numpy object left of a ref; exceptions other than ZeroDivisionError/TypeError; float rounding (real domain)"
 REQUIRED_CLASSES = ["euf_valid", "zero_division_nan", "inplace_checked", "inplace_with_foreign_target", "raise_consistent", "callee_replaced"]
@@ -731,8 +731,14 @@ def cases(tier):
                     for k in ("lit", "ref"):
                         out.append({"kind": "inplace", "op": op, "old": old, "k": k, "dom": dom, "build": b})
                         out.append({"kind": "inplace", "op": op, "old": old, "k": k, "dom": dom, "build": b, "ctx": "ckey"})
-            if tier == "thorough" and dom != "pool":
-                red = ["add", "sub", "truediv", "neg", "abs", "pow", "lt"]
+            if dom != "pool":
+                # both operands nested at once
+                for op in ("add", "truediv", "pow", "lt", "mod", "floordiv"):
+                    for in1 in INNER[1:]:
+                        for in2 in INNER[1:]:
+                            out.append({"kind": "bin", "op": op, "cfg": "rr", "in1": in1, "in2": in2, "dom": dom, "build": b})
+            if dom != "pool":
+                red = ["add", "sub", "truediv", "neg", "abs", "pow", "lt"] if tier == "thorough" else ["add", "truediv", "neg", "abs", "pow"]
                 for o1 in red:
                     for o2 in red:
                         for o3 in red:
